@@ -981,6 +981,8 @@ CORPUS = [
     act_case_t4(typeb=True, sensb='5030702A1C0000001100'),
     {'kind': 'raw', 'tech': 't4', 'target': {'brty': '106A', 'sens_res': '4403', 'sel_res': '20', 'sdd_res': '04832F9A272D80'},
      'script': ['067577810280', 'f2'], 'tail': None},
+    {'kind': 'raw', 'tech': 't1', 'target': {'brty': '106A', 'sens_res': '000c', 'rid_res': '114801020304'},
+     'script': ['', '00' * 129], 'tail': None},          # RALL answered with an empty frame, then RSEG answered
     {'kind': 't3', 'blocks': (t3_attr(0x10, 0, 4, 4, 0, 1, 10) + bytes(64)).hex(), 'idm': '0102030405060708', 'pmm': 'ffffffffffffffff',
      'sensf': None, 'sys_in_sensf': True, 'max_read': 15, 'beyond': 'status', 'poll': True, 'stop': None, 'mode': 'timeout'},
     {'kind': 't3', 'blocks': (t3_attr(0x10, 4, 4, 1, 0, 1, 64) + bytes(128)).hex(), 'idm': '0102030405060708', 'pmm': 'ffffffffffffffff',
@@ -1043,7 +1045,7 @@ def main():
                       'Type 4: the theorems are about the reader above IsoDepInitiator.exchange (whole APDUs answered or failed); '
                       'the block layer is covered by C12 (termination for a responder that uses at most W waiting time extensions / '
                       'chained blocks per exchange) plus the WTX-without-WTXM repair modelled in TagReadAnyB.pcd_absorb_any']
-    ck.coq(gen=[], targets=['Proofs/TagSafeAct.vo', 'Proofs/TagSafeTlv.vo', 'Proofs/TagSafeBlk.vo', 'Proofs/TagSafeDep.vo'], props='C08')
+    ck.coq(gen=[], targets=['Proofs/TagSafeAct.vo', 'Proofs/TagSafeTlv.vo', 'Proofs/TagSafeCmd.vo', 'Proofs/TagSafeBlk.vo', 'Proofs/TagSafeDep.vo'], props='C08')
     mr = ck.model()
     if mr is None:
         ck.finish()
